@@ -338,6 +338,28 @@ def roundtrip_case(run, seed, idx, mods):
             d2[fu2.row, fu2.col] = fu2.pixels["intensity"]
             if not np.array_equal(fu2.pixels["key"], np.arange(fr.nnz)) or not np.array_equal(d2, want):
                 V("sort_by:values-detached", "sort_by() detached pixel values from their coordinates")
+        # one frame object through a history of orderings: sort, re-order by another key (or by an explicit
+        # permutation), sort again ... after every sort() the frame must be in row-major order with its values attached,
+        # whatever was done to it before
+        fh = sparseframe.sparse_frame(fr.row.copy(), fr.col.copy(), shape,
+                                      pixels={"intensity": fr.pixels["intensity"].copy(),
+                                              "key": r2.permutation(fr.nnz).astype(np.int32),
+                                              "tag": np.arange(fr.nnz)})
+        try:
+            for stepno in range(3):
+                fh.sort()
+                run.count("sort_history_steps")
+                if not sorted_strict(fh.row, fh.col) or not np.array_equal(fh.pixels["tag"], np.arange(fr.nnz)) or \
+                        not np.array_equal(fh.pixels["intensity"], fr.pixels["intensity"]):
+                    V("sort:history", "sort() number %d on one frame (after sort_by / reorder) left it %s"
+                      % (stepno + 1, "unsorted" if not sorted_strict(fh.row, fh.col) else "with detached values"))
+                    break
+                if stepno == 0:
+                    fh.sort_by("key")
+                else:
+                    fh.reorder(r2.permutation(fr.nnz))
+        except Exception as e:
+            V("sort:history:exception:%s" % type(e).__name__, "sort/sort_by/reorder history raised %s: %s" % (type(e).__name__, e))
     # oversize must be refused, not silently wrapped
     if idx % 40 == 0:
         try:
